@@ -1232,12 +1232,13 @@ func matchCryptoMap(al, bl []*cmd, f func([]*cmd, []*cmd)) {
 		}
 		return peer
 	}
-	mapPeerToSeq := func(seqMap map[int][]*cmd) map[string]int {
-		m := make(map[string]int)
+	mapPeerToSeq := func(seqMap map[int][]*cmd) map[string][]int {
+		m := make(map[string][]int)
 		// Use fixed order to get deterministic result,
 		// if multiple entries have same peer.
 		for _, seq := range slices.Sorted(maps.Keys(seqMap)) {
-			m[getPeer(seqMap[seq])] = seq
+			peer := getPeer(seqMap[seq])
+			m[peer] = append(m[peer], seq)
 		}
 		return m
 	}
@@ -1249,7 +1250,10 @@ func matchCryptoMap(al, bl []*cmd, f func([]*cmd, []*cmd)) {
 	for _, aSeq := range slices.Sorted(maps.Keys(aSeqMap)) {
 		aSeqL := aSeqMap[aSeq]
 		aPeer := getPeer(aSeqL)
-		if bSeq, found := bPeer2Seq[aPeer]; found {
+		// Multiple entries with same peer are matched in order.
+		if l := bPeer2Seq[aPeer]; len(l) > 0 {
+			bSeq := l[0]
+			bPeer2Seq[aPeer] = l[1:]
 			f(aSeqL, bSeqMap[bSeq])
 			delete(bSeqMap, bSeq) // Mark as already processed.
 		} else {
